@@ -17,6 +17,10 @@ use std::collections::HashMap;
 pub fn gen_case(seed: u64, k: u64, tier: Tier) -> Case {
   let mut rng = Rng::for_case(seed, k);
   let mut c = gen_build_case(&mut rng, tier);
+  // checksum bookkeeping is judged per specifier, for loaders that report redirects as
+  // LoadResponse::Redirect (the documented way to let deno_graph know which checksum to send):
+  // modules answered under another final specifier are left to the C01/C03 streams
+  c.world.final_specifiers.clear();
   // mostly remote worlds: rewrite file: roots are kept (no checksums for them)
   // some sources get a BOM or are served as UTF-16 with a charset header
   let specs: Vec<String> = c.world.entries.keys().cloned().collect();
